@@ -673,6 +673,9 @@ class AgainTask (Task):
 
     try:
       nxt = g.send(None)
+    except StopIteration:
+      # Subtask returned without ever yielding -- same as running out later
+      pass
     except Exception:
       parent.task.re = sys.exc_info()
     else:
